@@ -316,11 +316,52 @@ theorem processBdReq_cases {cfg : Cfg} {req : Req} {ext : Ext} {hf : Heap} (h : 
   obtain ⟨h0, hp, hpre, rfl⟩ := processBdReq_ok h
   exact ⟨h0, hp, hpre, subnetOverride_cases cfg req ext h0⟩
 
+/-- what an (un)authenticated registrar puts into RegRespBytes / RegRespSignature for the response it forwards -/
+def signedBy (cfg : Cfg) (cresp : Option Resp) : Signed :=
+  match cfg.authenticated, cresp with
+  | true, some r => .registrar r
+  | _, _ => .absent
+
+/-- the conjuncts of `discardsClientFields` -/
+theorem discards_iff {w : WrapperFacts} (hw : w.discardsClientFields = true) :
+    w.otherUses.isEmpty = true ∧ w.fromClient .regRespBytes = false ∧ w.fromClient .regRespSignature = false ∧
+    (w.always.contains .registrationResponse = true ∨ w.fromClient .registrationResponse = true) ∧
+    (w.always.contains .sharedSecret = true ∨ w.fromClient .sharedSecret = true) ∧
+    (w.always.contains .registrationPayload = true ∨ w.fromClient .registrationPayload = true) ∧
+    w.assigned .regRespBytes = true ∧ w.assigned .regRespSignature = true := by
+  unfold WrapperFacts.discardsClientFields at hw
+  simp only [Bool.and_eq_true, Bool.or_eq_true, Bool.not_eq_true'] at hw
+  obtain ⟨⟨⟨⟨⟨⟨⟨⟨h1, h2⟩, h3⟩, _⟩, h5⟩, h6⟩, h7⟩, h8⟩, h9⟩ := hw
+  exact ⟨h1, h2, h3, h5, h6, h7, h8, h9⟩
+
+/-- a wrapper that is rebuilt field by field carries the response it was given, the registrar's own signed
+copy or none, and the client's secret and payload — whatever the client put into the other fields -/
+theorem wrapper_ok {w : WrapperFacts} (hw : w.discardsClientFields = true) {cfg : Cfg} {req : Req}
+    {cresp : Option Resp} {m : Nat} {a : Option String} {f : Fwd}
+    (h : processC2SWrapper w cfg req cresp m a = some f) :
+    f.resp = cresp ∧ f.respBytes = signedBy cfg cresp ∧ f.respSig = signedBy cfg cresp ∧
+      f.secretKept = true ∧ f.payloadKept = true := by
+  obtain ⟨_, hb, hs, hr, hsec, hpay, hab, has⟩ := discards_iff hw
+  unfold processC2SWrapper at h
+  split at h
+  · cases h
+  · cases h
+    refine ⟨?_, ?_, ?_, ?_, ?_⟩
+    · rcases hr with hr | hr <;> simp_all [wrapperStart]
+    · simp only [hab, Bool.true_and, wrapperStart, hb, signedBy]
+      cases cfg.authenticated <;> cases cresp <;> simp
+    · simp only [has, Bool.true_and, wrapperStart, hs, signedBy]
+      cases cfg.authenticated <;> cases cresp <;> simp
+    · rcases hsec with hr | hr <;> simp_all [wrapperStart]
+    · rcases hpay with hr | hr <;> simp_all [wrapperStart]
+
 /-- a successful registration is a successful `processBdReq` whose heap yields both views -/
-theorem register_ok {cfg : Cfg} {req : Req} {ext : Ext} {m : Nat} {a : Option String} {c : Resp} {f : Fwd}
-    (h : registerBidirectional cfg req ext m a = .ok c f) :
+theorem register_ok {w : WrapperFacts} (hw : w.discardsClientFields = true) {cfg : Cfg} {req : Req} {ext : Ext}
+    {m : Nat} {a : Option String} {c : Resp} {f : Fwd}
+    (h : registerBidirectional w cfg req ext m a = .ok c f) :
     ∃ hf, processBdReq cfg { req with forgedResp := none } ext = .ok hf ∧ c = hf.get hf.rp ∧
-      f.resp = hf.wp.map hf.get ∧ f.signed = (if cfg.authenticated then hf.wp.map hf.get else none) := by
+      f.resp = hf.wp.map hf.get ∧ f.respBytes = signedBy cfg (hf.wp.map hf.get) ∧
+      f.respSig = signedBy cfg (hf.wp.map hf.get) ∧ f.secretKept = true ∧ f.payloadKept = true := by
   unfold registerBidirectional at h
   simp only at h
   split at h
@@ -329,18 +370,11 @@ theorem register_ok {cfg : Cfg} {req : Req} {ext : Ext} {m : Nat} {a : Option St
   · rename_i hf hbd
     split at h
     · cases h
-    · rename_i fw hw
+    · rename_i fw hfw
       split at h
       · cases h
-        refine ⟨hf, hbd, rfl, ?_, ?_⟩
-        · unfold processC2SWrapper at hw
-          split at hw
-          · cases hw
-          · cases hw; rfl
-        · unfold processC2SWrapper at hw
-          split at hw
-          · cases hw
-          · cases hw; rfl
+        obtain ⟨h1, h2, h3, h4, h5⟩ := wrapper_ok hw hfw
+        exact ⟨hf, hbd, rfl, h1, h2, h3, h4, h5⟩
       · cases h
 
 /-- the response state after `processBdReq`: both pointers name one object, whatever the subnet override did -/
